@@ -60,6 +60,7 @@ class Capture:
                 sys.modules[name] = m
 
 
+CALL_LIMIT_S = 60      # wall-clock limit for one find_answer / solve on these tiny programs (they take milliseconds)
 EXPECT_ENTRY = {"sugar": "subprocess:", "sugar_extended": "subprocess:", "csugar": "module:pycsugar",
                 "enigma_csp": "module:enigma_csp", "cspuz_core": "module:cspuz_core"}
 
@@ -127,13 +128,29 @@ def check_emission(rep, p, name, mode):
     s = build_program(p)
     for v in s.variables:
         v.sol = None
-    with Capture() as cap:
-        with warnings.catch_warnings():
-            warnings.simplefilter("ignore")
-            try:
-                ret = s.find_answer(backend=name) if mode == "find" else s.solve(backend=name)
-            except Exception as e:
-                return ["exception %s: %s" % (type(e).__name__, str(e)[:200])], 0
+    import signal
+
+    class _Stuck(BaseException):
+        pass
+
+    def _alarm(signum, frame):
+        raise _Stuck()
+    old_handler = signal.signal(signal.SIGALRM, _alarm)
+    signal.setitimer(signal.ITIMER_REAL, CALL_LIMIT_S, 0.5)     # repeats: an exception raised inside a __del__ is swallowed
+    try:
+        with Capture() as cap:
+            with warnings.catch_warnings():
+                warnings.simplefilter("ignore")
+                try:
+                    ret = s.find_answer(backend=name) if mode == "find" else s.solve(backend=name)
+                except Exception as e:
+                    return ["exception %s: %s" % (type(e).__name__, str(e)[:200])], 0
+                except _Stuck:
+                    # the stand-in solver answers at once, so only the library's own loop (refinement through plain Sugar) can spin
+                    return ["no-termination: the call did not return within %d s (%d requests so far)" % (CALL_LIMIT_S, len(cap.calls))], 0
+    finally:
+        signal.setitimer(signal.ITIMER_REAL, 0)
+        signal.signal(signal.SIGALRM, old_handler)
     if not cap.calls:
         return ["no external solver call observed"], 0
     nq = 0
@@ -261,9 +278,12 @@ def run(tier, only=None):
     rng = random.Random(common.seed())
     progs = programs(tier, rng)
     t0 = time.time()
+    stuck = {}
     for i, p in enumerate(progs):
         for name in (NAMES if tier == "thorough" or p["kind"] != "tree" else [NAMES[i % 5], NAMES[(i + 2) % 5]]):
             for mode in ("find", "solve"):
+                if stuck.get((name, mode), 0) >= 2:
+                    continue          # this route already failed to terminate twice (reported): do not spend a minute per further program
                 rep.programs += 1
                 rep.evaluations += 1
                 issues, nq = check_emission(rep, p, name, mode)
@@ -282,6 +302,8 @@ def run(tier, only=None):
                         rep.inconc(it)
                         continue
                     payload = {"engine": "A", "program": pj, "backend": name, "mode": mode}
+                    if it.startswith("no-termination"):
+                        stuck[(name, mode)] = stuck.get((name, mode), 0) + 1
                     rep.counterexample("%s,%s,%s" % (name, mode, it.split(" ")[0]), "%s/%s on %s: %s" % (name, mode, pj.get("steps", pj["kind"]), it),
                                        payload, True)
     rep.solver_time += time.time() - t0
